@@ -2395,7 +2395,16 @@ public:
     SBEPP_CPP14_CONSTEXPR reference operator[](size_type pos) const noexcept
     {
         SBEPP_ASSERT(pos < size());
-        return *(begin() + pos);
+        // `begin() + pos` converts `pos` to `difference_type` which cannot
+        // represent the upper half of `size_type`
+        auto dimension = (*this)(get_header_tag{});
+        return reference{
+            (*this)(addressof_tag{}) + sbepp::size_bytes(dimension)
+                + static_cast<std::size_t>(pos)
+                      * static_cast<std::size_t>(
+                          dimension.blockLength().value()),
+            (*this)(end_ptr_tag{}),
+            dimension.blockLength().value()};
     }
 
     //! @brief Returns the first entry
